@@ -1443,6 +1443,20 @@ pub fn generate(ctx: &mut GenCtx) {
     let modes = ["lit", "iri", "qt", "lang"];
     for (ki, (kind, width)) in KINDS.iter().enumerate() {
         escape_patterns(ctx, kind, width, ki);
+        // clone_from over a destination that holds MORE terms than the source (whatever `clone_from` reuses of the
+        // destination, nothing of its old content may survive), then the source goes; and the other way round
+        {
+            let (big, small) = if *width == "6" { (6, 2) } else { (30, 5) };
+            let nwa = format!("new a {} {}", kind, width);
+            let nwb = format!("new b {} {}", kind, width);
+            emit_h(ctx, &[nwa.clone(), nwb.clone(), format!("fill a {} 0 {}", small, ["lit", "iri", "lang", "qt"][ki % 4]), format!("fill b {} 500 iri", big),
+                "cfrom a b".into(), "all b".into(), "dbg b".into(), "drop a".into(), "all b".into(), "fill b 3 900 lit".into(), "clone b c".into(), "drop b".into(), "all c".into()]);
+            emit_h(ctx, &[nwa.clone(), nwb.clone(), "via own".into(), format!("fill a {} 0 iri", big), format!("fill b {} 500 {}", small, ["qt", "lit", "iri", "lang"][ki % 4]),
+                "cfrom a b".into(), "all b".into(), "cfrom b a".into(), "drop b".into(), "all a".into(), "dbg a".into()]);
+            // an EMPTY source over a full destination, twice
+            emit_h(ctx, &[nwa.clone(), nwb, format!("fill b {} 0 lit", big), "cfrom a b".into(), "all b".into(), "dbg b".into(), "fill b 2 0 iri".into(), "cfrom a b".into(), "all b".into(), "drop a".into(), "all b".into()]);
+            ctx.stats.add("scripted.clone_from_sizes", 3);
+        }
         if *width == "6" {
             // six terms: everything below would only ever see "full"
             tiny_index_patterns(ctx, kind);
